@@ -281,6 +281,23 @@ Theorem C09_history_ok_sound :
 Proof. exact history_ok_sound. Qed.
 Print Assumptions C09_history_ok_sound.
 
+(* the template executors hold no history: the template in use is the last setting *)
+Theorem C09_executor_history_independent :
+  forall (h : list (option string)) s cur, fold_left exec_step (h ++ [s]) cur = s.
+Proof. exact executor_history_independent. Qed.
+Print Assumptions C09_executor_history_independent.
+
+(* a memo of the parsed text would be harmless only if EVERY revert cleared it *)
+Theorem C09_memo_executor_clearing_history_independent :
+  forall h s, s <> Some "" -> fst (fold_left (memo_step true) (h ++ [s]) (None, "")) = s.
+Proof. exact memo_executor_clearing_history_independent. Qed.
+Print Assumptions C09_memo_executor_clearing_history_independent.
+
+Theorem C09_memo_executor_refuted :
+  exists t, fst (fold_left (memo_step false) [Some t; None; Some t] (None, "")) <> Some t.
+Proof. exact memo_executor_refuted. Qed.
+Print Assumptions C09_memo_executor_refuted.
+
 (* ---------------------------------------------------------------- the hypotheses are met / concrete witnesses *)
 
 Definition secret3 : smap string := of_list [("client-b", "k2"); ("client-a", "k1"); ("client-c", "k3")].
